@@ -112,6 +112,9 @@ def make_cases(ck, n, few=False):
         if i % 10 == 9 and i < 20: blocks, tags = noaddr_history(r, nb)
         c = Case(('b' if few else 'u') + str(i), coin).simple_layout(blocks)
         if i % 3 == 2 and 'refund' not in tags: c.start = r.randrange(0, nb); c.end = r.choice([None, r.randrange(c.start + 1, nb + 1)]); tags.add('range')
+        if i % 10 == 6 and 'refund' not in tags:
+            # the same history indexed at heights around 2^32 (creation heights are 64-bit in the dump)
+            H0 = 2**32 - 2; c = Case(c.id, coin).simple_layout(blocks, start_height=H0); c.start = H0 + (1 if nb > 2 else 0); c.end = None; tags.add('heights>=2^32')
         if i % 4 == 1: c.verbosity = 1 + (i // 4) % 2; tags.add('-v' * c.verbosity if c.verbosity == 1 else '-vv')
         c.meta['tags'] = sorted(tags); cases.append(c)
     return cases
@@ -140,7 +143,7 @@ def small_histories(r, limit):
 def explore(ck, cb='unspent', few=False):
     r = ck.rng; quick = ck.tier == 'quick'
     ck.rule = ('random spend histories (fan-in/out, same-block spends, forward references to outputs of later transactions, several inputs on one tx, blocks of 36..47 transactions in arbitrary order, the null outpoint as first of several inputs, transactions with over-long CompactSize encodings that are spent later, sweeps of all outputs of one transaction by consecutive inputs (address-less output first), unknown outpoints (random, and near misses of live ones: txid equal in 16 bytes or all but one bit, same index), double references, '
-               'address-less outputs of every kind, ranges without any address-bearing output (header-only dump), spend-to-empty / refund / brand-new-address sequences, zero values, duplicate coinbase txids at different heights, > 255 outputs) x ranges x 8 coins, plus bounded-exhaustive two-block histories over a '
+               'address-less outputs of every kind, ranges without any address-bearing output (header-only dump), spend-to-empty / refund / brand-new-address sequences, zero values, duplicate coinbase txids at different heights, > 255 outputs) x ranges (also at heights around 2^32, and as the second of two legs dumped into one folder) x 8 coins, plus bounded-exhaustive two-block histories over a '
                'fixed outpoint pool; the row set of the dump is compared with the model and with the property\'s definition evaluated over the csvdump rows. '
                'Non-trivial: >= 1 in-range spend of an in-range output; distinct by history.')
     cases = make_cases(ck, 30 if quick else 250, few=few)
@@ -153,6 +156,25 @@ def explore(ck, cb='unspent', few=False):
         return c.id if created & spent else None
     models, results = core.compare_cases(ck, cases, lambda c: cbs, nontrivial=nontrivial,
                                          sample=lambda c, m: dict(case=c.id, coin=c.coin, tags=c.meta['tags'], start=c.start, end=c.end, unspent_rows=len(m['unspent']), totals=m['unspenttotals']))
+    # a long chain dumped in two legs into ONE dump folder: leg 1 = heights 0..s-1, leg 2 = --start s. The second leg's result must be what it is in a fresh folder
+    # (outputs created below s are outside its range, whatever an earlier leg left next to it)
+    import shutil, os
+    for c in [x for x in cases if 2 <= x.start < 2**31][:6]:      # (a first leg 0..0 cannot be requested: --end must exceed --start)
+        m = models[c.id]
+        if m['status'][0] != 'done': continue
+        out = os.path.join(ck.tools.work, 'legs_' + c.id); os.makedirs(out, exist_ok=True)
+        leg1 = Case(c.id + '_leg1', c.coin); leg1.files = c.files; leg1.records = c.records; leg1.xor = c.xor; leg1.name_of = c.name_of; leg1.end = c.start - 1
+        r1 = run.run_impl(ck.tools, leg1, cb, outdir=out)
+        left = dict(r1.files)
+        if r1.rc != 0 or not left: ck.count('two-leg: first leg produced nothing'); shutil.rmtree(out, ignore_errors=True); continue
+        r2 = run.run_impl(ck.tools, c, cb, outdir=out)
+        ck.evaluated(); ck.count('two-leg runs into one dump folder'); ck.nontrivial(('legs', c.id))
+        changed = [n for n, d in left.items() if r2.files.get(n) != d and not n.endswith('.tmp')]
+        r2.files = {n: d for n, d in r2.files.items() if n not in left}
+        diffs = run.CMP[cb](r2, m, c)
+        if changed: diffs.append('the first leg\'s result files were modified by the second leg: %s' % changed)
+        if diffs: ck.disagreement('%s --start %d after an earlier leg 0..%d in the same dump folder (%s)' % (cb, c.start, c.start - 1, c.id), '\n'.join(diffs)[:1500], c, in_domain=True)
+        shutil.rmtree(out, ignore_errors=True)
     for c in cases:
         m = models[c.id]
         if m['status'][0] != 'done': continue
